@@ -247,6 +247,13 @@ class CallMixin:
                 self.opq_may_raise(st, f"builtin {name}() on a value of unknown type")
             yield st, fresh(TOpaque("unk"), name)
             return
+        if "." in name and not name.startswith("$"):
+            modname, _, fname = name.rpartition(".")
+            lib_con = REG.contracts.get(f"{modname}:{fname}")
+            if lib_con is not None:
+                # a library function with an assumed contract
+                yield from self.call_by_contract(st, lib_con, None, modname, None, lib_con.target, args, kw, None, node)
+                return
         if "." in name and not name.startswith(("math.", "$")):
             # a library function without a model: an unknown value; it may raise if the contract says so
             self.note_assumed(f"library call {name} (unknown result, no effect on tracked state)")
